@@ -721,6 +721,14 @@ class Loops:
                 oref = ex.lookup(st, fr, base)
                 o = st.heap[oref.id]
                 curv = o.get(attr)
+                if isinstance(ty, tuple) and ty[0] == "dictset" and isinstance(curv, Ref):
+                    _k, key_ty, elem_ty = ty
+                    srt = z3.ArraySort(self.m.sort(key_ty), z3.ArraySort(self.m.sort(elem_ty), z3.BoolSort()))
+                    arr = z3.Const(f"hv_{attr}!{fresh_id()}", srt)
+                    st.created.append(arr)
+                    st.undet.append(arr)
+                    st.heap[curv.id] = DictObj((), st.heap[curv.id].default_factory, (key_ty, elem_ty, arr))
+                    continue
                 if isinstance(ty, tuple) and ty[0] in ("list", "set") and isinstance(curv, Ref):
                     fv = ex.fresh(st, "hv_" + attr, ty)
                     st.undet.append(fv.term)
